@@ -1909,7 +1909,9 @@ class MatlabWrapper(CheckMixin, FormatMixin):
         modules = {}
         for file in files:
             with open(file, 'r') as f:
-                content += f.read()
+                # keep the files apart: a file may end in a line comment
+                # without a final newline
+                content += f.read() + "\n"
 
         # Parse the contents of the interface file
         parsed_result = parser.Module.parseString(content)
